@@ -8,6 +8,8 @@ import (
 	"sort"
 	"strings"
 
+	"gopkg.in/yaml.v3"
+
 	"verif/cfg"
 	"verif/cli"
 	"verif/gen"
@@ -108,7 +110,7 @@ func checkC09(c *Ctx) error {
 	c.Rule = "seeded triples (configuration, partition into 2-5 fragments with attribute-level splits of services and meta, contiguous runs of calls/tags/decorators, arbitrary partition of mappings, whole argument lists, plus decoy values in earlier fragments that later ones override) x file/pattern layouts whose glob order differs from the lexical order of cleaned paths (c-d/ vs c/, upper/lower case, ./x/../x, explicit file before a glob). Oracles: byte equality of -o between (A) the single-file form, (B) the split form, (C) the single-file form of the reference merge of the fragments in the expected file order, (D) pre-merged neighbours (associativity) and (E) the split form with empty files inserted (identity). distinct = distinct (fragments, layout); non-trivial = >=2 fragments with at least one overridden value or one appended list spanning fragments"
 	c.Assumptions = []string{"reference merge engine/ref.Merge (B.1)", "expected file order: patterns in argv order, inside a pattern bytewise order of filepath.Clean-ed matches", "the splitter is validated on every case: the reference merge of its fragments must give the original configuration back, else the case is a harness failure"}
 	w := c.W
-	n := c.Pick(300, 5000)
+	n := c.Pick(300, 16000)
 	Par(n, 16, func(i int) {
 		r := rand.New(rand.NewSource(c.Seed*92821 + int64(i)))
 		o := gen.DefaultOpts()
@@ -242,6 +244,25 @@ func checkC09(c *Ctx) error {
 				c.Violate("empty-pattern-not-identity", fmt.Sprintf("adding patterns that match no file changes the output (patterns %v)\n%s", pats, firstDiff(outB, outF)), files)
 			}
 			c.Add("empty_patterns_compared", 1)
+		}
+		// (G) the same configuration in other YAML styles (one flow document; block style with plain and single-quoted scalars,
+		// block sequences, comments, document markers; CRLF + byte order mark) gives the same output
+		for style := 1; style <= 3; style++ {
+			y := conf.YAMLStyle(style)
+			var a, b any
+			e1, e2 := yaml.Unmarshal([]byte(single), &a), yaml.Unmarshal([]byte(y), &b)
+			if e1 != nil || e2 != nil || fmt.Sprintf("%#v", a) != fmt.Sprintf("%#v", b) {
+				c.Inconclusive(fmt.Sprintf("emitter self-test: style %d does not parse to the same document (case %d): %v %v", style, i, e1, e2))
+				continue
+			}
+			name := fmt.Sprintf("style-%d.yaml", style)
+			_ = work.WriteFile(filepath.Join(dir, name), []byte(y))
+			runS, outS := runBuild(c, dir, []string{name})
+			c.Add("yaml_styles_compared", 1)
+			if runS.Res.Exit != 0 || outS != outA {
+				files["input/"+name] = y
+				c.Violate(fmt.Sprintf("yaml-style-changes-output:style%d", style), fmt.Sprintf("the same document in YAML style %d: exit %d, output equal: %v\n%s\n%s", style, runS.Res.Exit, outS == outA, rejectReason2(runS), firstDiff(outA, outS)), files)
+			}
 		}
 		if i == 2 {
 			c.Sample(map[string]any{"patterns": lay.patterns, "expected_file_order": lay.files, "fragments": fragmentTexts(parts), "outputs_equal": outA == outB})
